@@ -140,6 +140,10 @@ def run(ctx, n_quick=40, n_thorough=500):
             elif len(vh.versions) == len(h.snapshots):
                 # per version: SQLite's page_count / freelist_count recorded right after that commit
                 for k, snap in enumerate(h.snapshots):
+                    if h.kind == "passive_checkpoint" and k != len(h.snapshots) - 1:
+                        # a passive checkpoint has copied later frames into the database file: the older versions of this
+                        # pair are mixtures no snapshot corresponds to; only the newest is SQLite's state (as in C02)
+                        continue
                     vcase = dict(case, version=k)
                     try:
                         pages = vh.versions[k].pages
